@@ -240,7 +240,13 @@ def run_cases(prop, cases, attribute=None, progress=True):
     os.makedirs(TMP, exist_ok=True)
     os.makedirs(REPLAYS, exist_ok=True)
     need = {}
+    # thorough workloads are 4-10x the quick ones and run 16 at a time: their per-case watchdog is scaled accordingly (a
+    # time-out is only ever "no result": hangs are found by the in-process watchdogs long before)
+    scale = 5 if os.environ.get("VERIF_RUNNING_TIER") == "thorough" else 1
     for c in cases:
+        if scale != 1 and not getattr(c, "_scaled", False):
+            c.timeout *= scale
+            c._scaled = True
         if c.flavour == "tsan":
             # pika's context switch carries no TSan fiber annotations.  TSan keeps one shadow call stack per OS thread; a task
             # that suspends on one worker and resumes on another leaves its frames on the first worker's shadow stack for
